@@ -10,12 +10,15 @@
 #include "constr_SEQUENCE_oer.c"
 
 struct sv { uint8_t v[2]; };
-struct T { struct sv a; struct sv *b; struct sv c; struct sv *d; struct sv *e; asn_struct_ctx_t _asn_ctx; };
+#ifndef VF_AOMS
+#define VF_AOMS 2     /* number of extension additions: 2 (d, e) or 8 (d, e and six more that stay absent: a full bitmap octet) */
+#endif
+struct T { struct sv a; struct sv *b; struct sv c; struct sv *d; struct sv *e; struct sv *x[6]; asn_struct_ctx_t _asn_ctx; };
 
 #define CTX(n) ((ber_tlv_tag_t)((n) << 2) | ASN_TAG_CLASS_CONTEXT)
 static asn_TYPE_descriptor_t sv_td, T_td;
 static asn_TYPE_operation_t sv_op;
-static asn_TYPE_member_t T_elems[5];
+static asn_TYPE_member_t T_elems[11];
 static asn_SEQUENCE_specifics_t T_specs;
 static const ber_tlv_tag_t T_tags[1] = { (ber_tlv_tag_t)(16 << 2) | ASN_TAG_CLASS_UNIVERSAL };
 
@@ -53,9 +56,10 @@ static void setup(void) {
 	member(&T_elems[3], ATF_POINTER, 2, offsetof(struct T, d), CTX(3), "d"); T_elems[3].default_value_cmp = d_default_cmp;
 	member(&T_elems[4], ATF_POINTER, 1, offsetof(struct T, e), CTX(4), "e");
 	memset(&T_specs, 0, sizeof(T_specs)); T_specs.struct_size = sizeof(struct T); T_specs.ctx_offset = offsetof(struct T, _asn_ctx);
-	T_specs.roms_count = 1; T_specs.aoms_count = 2; T_specs.first_extension = 3;
+	for(int i = 0; i < 6; i++) member(&T_elems[5 + i], ATF_POINTER, 1, offsetof(struct T, x) + i * sizeof(struct sv *), CTX(5 + i), "x");
+	T_specs.roms_count = 1; T_specs.aoms_count = VF_AOMS; T_specs.first_extension = 3;
 	memset(&T_td, 0, sizeof(T_td)); T_td.name = "T"; T_td.tags = T_tags; T_td.tags_count = 1; T_td.all_tags = T_tags; T_td.all_tags_count = 1;
-	T_td.elements = T_elems; T_td.elements_count = 5; T_td.specifics = &T_specs;
+	T_td.elements = T_elems; T_td.elements_count = VF_AOMS == 8 ? 11 : 5; T_td.specifics = &T_specs;
 }
 static void inputs(void) {
 	VF_BYTES(vals, 10); VF_SCALAR(int, pb); VF_SCALAR(int, pd); VF_SCALAR(int, pe);
@@ -105,7 +109,7 @@ void h_SEQUENCE_encode_oer(void) {
 	if(has_b) { exp[n++] = vb.v[0]; exp[n++] = vb.v[1]; }
 	exp[n++] = val.c.v[0]; exp[n++] = val.c.v[1];
 	if(ext) {
-		exp[n++] = 2; exp[n++] = 6; exp[n++] = (unsigned char)((d_enc ? 0x80 : 0) | (has_e ? 0x40 : 0));
+		exp[n++] = 2; exp[n++] = (unsigned char)((8 - (VF_AOMS & 7)) & 7); exp[n++] = (unsigned char)((d_enc ? 0x80 : 0) | (has_e ? 0x40 : 0));    /* length, unused bits of the bitmap (X.696 16.4.2), bitmap */
 		if(d_enc) { exp[n++] = 2; exp[n++] = vd.v[0]; exp[n++] = vd.v[1]; }
 		if(has_e) { exp[n++] = 2; exp[n++] = ve.v[0]; exp[n++] = ve.v[1]; }
 	}
